@@ -80,6 +80,8 @@ pub enum Rel {
     None,
     One(Entity),
     Two { a: Entity, b: Entity },
+    /// tuple variant with two fields of the same type: their positions must survive the round trip
+    Pair(Entity, Entity),
 }
 impl Component for Rel {
     type Storage = BTreeStorage<Self>;
@@ -171,6 +173,7 @@ pub enum RelV<R> {
     None,
     One(R),
     Two(R, R),
+    Pair(R, R),
 }
 
 /// Values of the six serialised component types of one entity; references are
@@ -210,7 +213,7 @@ impl<R: Clone + PartialEq + std::fmt::Debug> Val<R> {
         }
         match &self.rel {
             Some(RelV::One(a)) => v.push(a.clone()),
-            Some(RelV::Two(a, b)) => {
+            Some(RelV::Two(a, b)) | Some(RelV::Pair(a, b)) => {
                 v.push(a.clone());
                 v.push(b.clone());
             }
@@ -224,7 +227,7 @@ impl<R: Clone + PartialEq + std::fmt::Debug> Val<R> {
         let l = self.link.as_ref().map_or(false, |(a, b, _)| !ok(a) || !ok(b));
         let r = match &self.rel {
             Some(RelV::One(a)) => !ok(a),
-            Some(RelV::Two(a, b)) => !ok(a) || !ok(b),
+            Some(RelV::Two(a, b)) | Some(RelV::Pair(a, b)) => !ok(a) || !ok(b),
             _ => false,
         };
         [t, l, r]
@@ -252,6 +255,10 @@ impl<R: Clone + PartialEq + std::fmt::Debug> Val<R> {
                 Some(RelV::Two(a, b)) => Some(RelV::Two(
                     f(a).map_err(|e| format!("Rel::Two.a: {}", e))?,
                     f(b).map_err(|e| format!("Rel::Two.b: {}", e))?,
+                )),
+                Some(RelV::Pair(a, b)) => Some(RelV::Pair(
+                    f(a).map_err(|e| format!("Rel::Pair.0: {}", e))?,
+                    f(b).map_err(|e| format!("Rel::Pair.1: {}", e))?,
                 )),
                 None => None,
             },
@@ -474,6 +481,7 @@ fn decode<M: Mk>(text: &str, fmt: Fmt) -> Option<Vec<(u128, Val<u128>)>> {
                             RelSaveloadData::None => RelV::None,
                             RelSaveloadData::One(a) => RelV::One(a.key()),
                             RelSaveloadData::Two { a, b } => RelV::Two(a.key(), b.key()),
+                            RelSaveloadData::Pair(a, b) => RelV::Pair(a.key(), b.key()),
                         }),
                     },
                 )
@@ -524,6 +532,7 @@ impl<'a> Rd<'a> {
                     Rel::None => RelV::None,
                     Rel::One(a) => RelV::One(*a),
                     Rel::Two { a, b } => RelV::Two(*a, *b),
+                    Rel::Pair(a, b) => RelV::Pair(*a, *b),
                 }),
             },
             self.extra.get(e).map(|x| x.0),
@@ -548,6 +557,7 @@ fn rel_of(r: &RelV<Entity>) -> Rel {
         RelV::None => Rel::None,
         RelV::One(a) => Rel::One(*a),
         RelV::Two(a, b) => Rel::Two { a: *a, b: *b },
+        RelV::Pair(a, b) => Rel::Pair(*a, *b),
     }
 }
 
@@ -1404,9 +1414,13 @@ fn gen_refs<T: Clone + PartialEq + std::fmt::Debug>(rng: &mut Rng, v: &mut Val<T
         }
     }
     if rng.chance(p[5], 16) {
-        v.rel = match rng.below(4) {
+        v.rel = match rng.below(5) {
             0 => Some(RelV::None),
             1 | 2 => pick(rng).map(RelV::One),
+            3 => match (pick(rng), pick(rng)) {
+                (Some(a), Some(b)) => Some(RelV::Pair(a, b)),
+                _ => Some(RelV::None),
+            },
             _ => match (pick(rng), pick(rng)) {
                 (Some(a), Some(b)) => Some(RelV::Two(a, b)),
                 _ => Some(RelV::None),
